@@ -153,11 +153,12 @@ def quotePhase : Bool → Bytes → Bool
   | true, [92] => true
   | true, c :: r => quotePhase (c != 34) r
 
-/-- a command-text line is strict when it has no bare CR or LF, all its quoted strings end on
-    the line, it does not end in SP (a liberal lexer may take " CRLF" for CRLF), and a literal
-    header, if any, announces a size below 2^63 -/
+/-- a command-text line is strict when it is printable US-ASCII (no bare CR or LF, no 8-bit
+    octets: RFC atoms are 7-bit, the library also takes octets from 0xA0 up), all its quoted
+    strings end on the line, it does not end in SP (a liberal lexer may take " CRLF" for CRLF),
+    and a literal header, if any, announces a size below 2^63 -/
 def strictLine (text : Bytes) : Bool :=
-  !(text.any fun c => c == 13 || c == 10) && !quotePhase false text && text.getLast? != some 32
+  text.all (fun c => 32 ≤ c && c ≤ 126) && !quotePhase false text && text.getLast? != some 32
   && (match litHeader text with | some (n, _) => n < 9223372036854775808 | none => true)
 
 def Frame.strict (f : Frame) : Bool := f.texts.all strictLine
